@@ -576,6 +576,30 @@ def main(ctx):
             for ml in (True, False):
                 yield (data, w, y, nper, ml, None, None, "binner", True)
 
+    # ---------------------------------------------------------- part: large bins
+    # bins of several hundred to a few thousand members (odd and even counts around 256, 512, 1024, 4096), the members
+    # in scrambled order and a second variable that is not monotonic in x: order statistics taken by partial sorting
+    # (partition, introselect) are only wrong for large, suitably arranged bins
+    def expand_large(u):
+        sizes, ykind, eng = u
+        xs, ys = [], []
+        for b, n in enumerate(sizes):
+            for i in range(n):
+                xs.append(b + ((i * 7919 + 13) % n) / float(n + 1))
+                ys.append({"sin": math.sin(1.0 + 0.37 * (len(xs) + 1) * (b + 1)), "saw": float((i * 31) % 17) - 8.0,
+                           "steps": float((i * 5) % 3)}[ykind])
+        order = [(k * 104729 + 7) % len(xs) for k in range(len(xs))]
+        data = tuple(xs[k] for k in order)
+        y = tuple(ys[k] for k in order)
+        yield ("f8", data, None, y, "binsize", 1.0, 0.0, None, "binner", eng)
+        yield ("f8", data, tuple(1.0 + (k % 3) for k in range(len(data))), y, "binsize", 1.0, 0.0, None, "binner", eng)
+
+    MANY_EVEN = tuple(258 + 2 * (k % 23) for k in range(40))        # forty bins of 258..302 members (even counts)
+    MANY_EVEN2 = tuple(600 + 2 * (k % 7) for k in range(ctx.pick(160, 600)))      # (selection by partition goes wrong for about one arrangement in a hundred)
+    lgunits = [(sz, yk, eng) for sz in ((257, 258, 300), (512, 513, 1000), (1024, 255, 256, 2), (4096, 4097), MANY_EVEN, MANY_EVEN2) for yk in ("sin", "saw", "steps") for eng in (True, False)]
+    ctx.lattice("large-bins", lgunits, one, expand=expand_large,
+                bounds=dict(bin_sizes=[[257, 258, 300], [512, 513, 1000], [1024, 255, 256, 2], [4096, 4097], "40 bins of 258..302 (even)", "160 (thorough: 600) bins of 600..612 (even)"], second_variable=["sin", "saw", "steps"], engines=["compiled", "python"]))
+
     # ---------------------------------------------------------- part: nperbin
     def one_nper(case, rec):
         data, w, y, nper, ml, mn, mx, entry, eng = case
@@ -860,10 +884,15 @@ def main(ctx):
     def seq_pool():
         return dict(d1=np.array([0.0, 0.5, 1.0, 1.5, 2.0, 3.7, 1.0, 3.0]), d2=np.array([3.0, 1.0, 2.0, 2.0]),
                     w1=np.array([1.0, 2.0, 0.5, 1.0, 2.0, 0.5, 1.0, 2.0]), w2=np.array([2.0, 0.5, 1.0, 2.0]),
-                    y1=np.array([0.5, 1.0, 1.5, 2.0, 2.5, 3.0, 3.5, 4.0]))
+                    y1=np.array([0.5, 1.0, 1.5, 2.0, 2.5, 3.0, 3.5, 4.0]),
+                    # data in the subnormal range: whatever an earlier call leaves behind in the floating-point mode of
+                    # the process (flush-to-zero) shows in the statistics of these
+                    t1=np.array([1.0, 2.0, 3.0, 5.0, 8.0, 9.0, 12.0, 13.0]) * 1e-311, ty=np.array([4.0, 1.0, 7.0, 2.0, 9.0, 3.0, 8.0, 5.0]) * 1e-312)
 
     SEQ_CALLS = [("more", "d1", None, 1.0), ("more", "d2", None, 1.0), ("more", "d1", "w1", 0.5), ("more", "d2", "w2", 0.5),
-                 ("split", "d1", "w1", "d2"), ("split", "d2", "w2", "d1"), ("nper", "d1", 3), ("nper", "d2", 2)]
+                 ("split", "d1", "w1", "d2"), ("split", "d2", "w2", "d1"), ("nper", "d1", 3), ("nper", "d2", 2),
+                 # counts only (no reverse indices, no weights, no second variable), and subnormal data
+                 ("counts", "d1", 1.0), ("counts", "d2", 0.5), ("tiny", "t1", "ty", 2), ("tiny-nper", "t1", 3)]
 
     def _dictvals(r):
         return [np.asarray(r[k]) for k in sorted(r.keys()) if isinstance(r[k], (np.ndarray, float, int, np.generic))]
@@ -872,6 +901,15 @@ def main(ctx):
         if c[0] == "more":
             return _dictvals(stat.histogram(pool[c[1]], weights=None if c[2] is None else pool[c[2]], binsize=c[3], more=True, rev=True))
         if c[0] == "nper":
+            return _dictvals(stat.histogram(pool[c[1]], nperbin=c[2], more=True, rev=True))
+        if c[0] == "counts":
+            return [np.asarray(stat.histogram(pool[c[1]], binsize=c[2]))]
+        if c[0] == "tiny":
+            bt = stat.Binner(pool[c[1]], y=pool[c[2]])
+            bt.dohist(nbin=c[3])
+            bt.calc_stats()
+            return _dictvals(dict(bt))
+        if c[0] == "tiny-nper":
             return _dictvals(stat.histogram(pool[c[1]], nperbin=c[2], more=True, rev=True))
         b1 = stat.Binner(pool[c[1]], weights=pool[c[2]])
         b1.dohist(binsize=1.0, rev=True, calc_stats=False)
